@@ -5,6 +5,7 @@ import (
 	"reflect"
 
 	tls "github.com/refraction-networking/utls"
+	"verif/harness/hlib"
 )
 
 // toJ converts a reflect value to a TLC-friendly JSON value: no null, strings as byte sequences,
@@ -14,7 +15,7 @@ func toJ(v reflect.Value) any {
 	case reflect.Bool:
 		return v.Bool()
 	case reflect.String:
-		return ints([]byte(v.String()))
+		return hlib.Ints([]byte(v.String()))
 	case reflect.Uint8, reflect.Uint16, reflect.Uint32, reflect.Uint64, reflect.Uint:
 		u := v.Uint()
 		if u >= 1<<31 {
@@ -94,20 +95,20 @@ func descSpec(spec *tls.ClientHelloSpec) map[string]any {
 		exts = append(exts, descExt(e))
 	}
 	return map[string]any{"min": int(spec.TLSVersMin), "max": int(spec.TLSVersMax),
-		"suites": u16s(spec.CipherSuites), "comp": ints(spec.CompressionMethods), "exts": exts}
+		"suites": hlib.U16s(spec.CipherSuites), "comp": hlib.Ints(spec.CompressionMethods), "exts": exts}
 }
 
 // dumpspecs: {"ids": [...]} (empty = all predefined parrots) -> one event {"specs": {name: desc}}
 func init() {
-	register("dumpspecs", func(in []byte, out *Out) error {
+	hlib.Register("dumpspecs", func(in []byte, out *hlib.Out) error {
 		var req struct{ IDs []string }
 		json.Unmarshal(in, &req)
 		specs := map[string]any{}
-		ids := parrotIDs
+		ids := hlib.ParrotIDs
 		if len(req.IDs) > 0 {
 			ids = nil
 			for _, n := range req.IDs {
-				id, err := lookupID(n)
+				id, err := hlib.LookupID(n)
 				if err != nil {
 					return err
 				}
